@@ -17,7 +17,8 @@ META = {
     "assumptions": ["source-level reasoning under C99 / Cython semantics (an ASan run of the binary would be the complementary technique)",
                     "exact reals for the float->bin index arithmetic (the IEEE version of the bin-index lemma is a separate obligation)",
                     "int arithmetic i*N+j does not overflow for the dimensions in the bound (N < 46341 in general)"],
-    "outside": ["the compiled artefact", "NumPy / igraph internals", "dimension 0 for kernels whose Python caller already raises on empty input"],
+    "outside": ["the compiled artefact", "NumPy / igraph internals", "dimension 0 for kernels whose Python caller already raises on empty input",
+                "calling the private compiled wrappers directly with sizes that contradict the arrays (the public methods derive them from the arrays)"],
 }
 
 SAFETY = ("OutOfBounds", "TypePunning", "DivisionByZero", "NegativeAllocation", "OOB")
@@ -134,6 +135,46 @@ def ob_ts_tests(name, fn, N, T, bins):
     return finish(name, run, hyps, funcs, f"N={N}, T={T}" + (f", {bins} bins" if "mutual" in fn else ""), f"C20|timeseries.{fn}", wit)
 
 
+def ob_ts_public(name, meth, N, T, T2):
+    """Surrogates.test_pearson_correlation / test_mutual_information (public static methods) with surrogates of ANOTHER length than the
+    original data (e.g. twin surrogates, which are shorter): the call is rejected with a Python exception or stays inside both arrays"""
+    from pyunicorn.timeseries import surrogates as smod
+    from .. import pe, pnet
+    kfn = "_" + meth
+    spec = [("float64"), ("float64"), None, None] + ([None] if "mutual" in meth else [])
+    funcs = [f"src/pyunicorn/timeseries/surrogates.py Surrogates.{meth}", kern.module("timeseries").func_info(kfn),
+             cfront.cmodule("timeseries").func_info(kfn + "_fast")]
+    bound = f"original data {N} x {T}, surrogates {N} x {T2}, symbolic contents"
+    od = np.array([[pe.SV(z3.Real(f"o_{i}_{k}")) for k in range(T)] for i in range(N)], dtype=object)
+    su = np.array([[pe.SV(z3.Real(f"s_{i}_{k}")) for k in range(T2)] for i in range(N)], dtype=object)
+    found = {}
+
+    def harness(ex):
+        shim = pnet.kernel_shim("timeseries", kfn, spec, extern=extern_for("timeseries"))
+        with pe.patched([smod], {"pyunicorn.timeseries.surrogates": {kfn: shim}}):
+            try:
+                if "mutual" in meth:
+                    smod.Surrogates.test_mutual_information(pe.SymNd(od.copy()), pe.SymNd(su.copy()), n_bins=2)
+                else:
+                    smod.Surrogates.test_pearson_correlation(pe.SymNd(od.copy()), pe.SymNd(su.copy()))
+            except (ValueError, IndexError, TypeError, ZeroDivisionError):
+                return "rejected"
+            except cfront.Found as f:
+                found["event"] = f"{f.event.kind} at {f.event.where}"
+                return "violation"
+        return "ran"
+    ex = pe.Explorer([], max_paths=64)
+    try:
+        paths = ex.run(harness)
+    except pe.Unsupported as e:
+        return result(name, INCONCLUSIVE, reason=f"unsupported: {e}", functions=funcs, bound=bound)
+    if any(p.result == "violation" for p in paths):
+        return result(name, VIOLATED, functions=funcs, bound=bound, twin="sat", signature=f"C20|Surrogates.{meth}|surrogates of another length",
+                      witness={"kind": "ts_public", "meth": meth, "N": N, "T": T, "T2": T2, "event": found.get("event", "")})
+    return result(name, HELD, functions=funcs, bound=bound, twin="sat",
+                  detail=f"{len(paths)} paths: " + ", ".join(sorted({str(p.result) for p in paths})))
+
+
 def ob_current_flow(name, fn, N):
     mod = kern.module("core")
     cm = cfront.cmodule("core")
@@ -220,6 +261,9 @@ def obligations(tier):
                 obs.append((ob_mutual_information, dict(name=f"C20|mutual_information|N={N},T={T},bins={bins}", N=N, T=T, bins=bins), 900))
                 obs.append((ob_ts_tests, dict(name=f"C20|_test_mutual_information|N={N},T={T},bins={bins}", fn="_test_mutual_information", N=N, T=T, bins=bins), 900))
         obs.append((ob_ts_tests, dict(name=f"C20|_test_pearson_correlation|N={N},T={T}", fn="_test_pearson_correlation", N=N, T=T, bins=1), 900))
+    for meth in ("test_pearson_correlation", "test_mutual_information"):
+        for (N, T, T2) in ((2, 3, 2), (2, 3, 1), (3, 2, 1), (2, 2, 3)):
+            obs.append((ob_ts_public, dict(name=f"C20|Surrogates.{meth}|original {N}x{T}, surrogates {N}x{T2}", meth=meth, N=N, T=T, T2=T2), 900))
     for N in dims:
         obs.append((ob_current_flow, dict(name=f"C20|_vertex_current_flow_betweenness|N={N}", fn="_vertex_current_flow_betweenness", N=N), 900))
         obs.append((ob_current_flow, dict(name=f"C20|_edge_current_flow_betweenness|N={N}", fn="_edge_current_flow_betweenness", N=N), 900))
@@ -229,6 +273,20 @@ def obligations(tier):
 CRASH_IS_VIOLATION = True
 
 CALLS = {
+    "ts_public": """
+from pyunicorn.timeseries import Surrogates
+import pyunicorn.timeseries.surrogates as smod
+# the public method copies its arguments (to_cy) before handing them to the kernel: place those copies before a guard page
+smod.to_cy = lambda a, ty: guarded(np.asarray(a).astype(ty))
+od = np.arange({N} * {T}, dtype='float64').reshape({N}, {T}) % 3
+su = np.arange({N} * {T2}, dtype='float64').reshape({N}, {T2}) % 2
+import io, contextlib
+try:
+    r = Surrogates.{meth}(od, su, n_bins=2) if 'mutual' in '{meth}' else Surrogates.{meth}(od, su)
+    print('returned', r)
+except (ValueError, IndexError, TypeError) as e:
+    print('rejected:', type(e).__name__, e)
+""",
     "spearman": """
 from pyunicorn.climate._ext import numerics as CL
 m, tmax = {m}, {tmax}
